@@ -14,22 +14,25 @@ Definition err_code (e : option perr) : Z :=
   | None => 0 | Some EHtml => 1 | Some EBinary => 2 | Some ETooLong => 3 | Some ERead => 4
   end%Z.
 
-(** What is observed of one list after a step: the stored file, rule count,
-    checksum, name, enabled flag, and whether the file on disk is another one
-    than before the step (inode or existence changed). *)
+(** What is observed of one list after a step: its URL (the number of the
+    source it names), the stored file, rule count, checksum, name, enabled
+    flag, and whether the file on disk is another one than before the step
+    (inode or existence changed). *)
 Inductive lobs :=
-  | LO (id : N) (file : option bytes) (count sum : N) (name : bytes) (enabled rewritten : bool).
+  | LO (id url : N) (file : option bytes) (count sum : N) (name : bytes) (enabled rewritten : bool).
 
 (** One refresh: which arrays, forced?, the lists that are due, what each
-    list's source delivers.  One call of set_url with the URL kept: array,
-    list, new name, new enabled flag, what the source delivers if it is asked;
-    observed: restart flag and error.  Observed after each step: the lists
-    and the verdicts of the probe names. *)
+    list's source delivers.  One call of set_url: array, URL of the request,
+    new name, new URL, new enabled flag, what the (new) source delivers if it
+    is asked; observed: restart flag and error.  One engine rebuild (any other
+    settings change).  Observed after each step: the lists and the verdicts of
+    the probe names. *)
 Inductive rstep :=
   | RStep (block allow force : bool) (due : list N) (ocs : list (N * outcome))
           (obs_lists : list lobs) (obs_verdicts : list N)
-  | RSet (allow : bool) (id : N) (name : bytes) (enabled : bool) (o : outcome)
-         (obs_restart obs_err : bool) (obs_lists : list lobs) (obs_verdicts : list N).
+  | RSet (allow : bool) (url : N) (name : bytes) (nurl : N) (enabled : bool) (o : outcome)
+         (obs_restart obs_err : bool) (obs_lists : list lobs) (obs_verdicts : list N)
+  | RRebuild (obs_lists : list lobs) (obs_verdicts : list N).
 
 Inductive case :=
   (* text, reader ends in an error; observed: error class, title, rule count,
@@ -41,7 +44,7 @@ Inductive case :=
 
 Definition mk_list (p : N * bool * bytes) : flist :=
   let '(i, en, name) := p in
-  {| f_id := i; f_enabled := en; f_name := name; f_count := 0; f_sum := 0 |}.
+  {| f_id := i; f_url := i; f_enabled := en; f_name := name; f_count := 0; f_sum := 0 |}.
 
 Definition oc_of (ocs : list (N * outcome)) (i : N) : outcome :=
   match find (fun e => fst e =? i) ocs with Some e => snd e | None => OOpenErr end.
@@ -51,10 +54,11 @@ Definition run_step (s : rstep) (st : rstate) : bool * rstate :=
   match s with
   | RStep b a f due ocs _ _ =>
       (true, refresh crc32_update b a f (fun i => existsb (N.eqb i) due) (oc_of ocs) st)
-  | RSet a i name en o rs er _ _ =>
-      let '(rs', er', st') := set_props crc32_update a i name en o st in
+  | RSet a u name nu en o rs er _ _ =>
+      let '(rs', er', st') := set_props crc32_update a u name nu en o st in
       (* the restart flag is only looked at when there is no error *)
       (Bool.eqb er er' && (er || Bool.eqb rs rs'), st')
+  | RRebuild _ _ => (true, rebuild_now st)
   end.
 
 Definition file_gen (i : N) (fs : files) : option N :=
@@ -62,9 +66,9 @@ Definition file_gen (i : N) (fs : files) : option N :=
 
 Definition list_agrees (st0 st : rstate) (o : lobs) : bool :=
   match o with
-  | LO i file cnt sum name en rw =>
+  | LO i url file cnt sum name en rw =>
       match find (fun l => f_id l =? i) (r_block st ++ r_allow st) with
-      | Some l => (f_count l =? cnt) && (f_sum l =? sum) && eqb_bytes (f_name l) name &&
+      | Some l => (f_url l =? url) && (f_count l =? cnt) && (f_sum l =? sum) && eqb_bytes (f_name l) name &&
                   Bool.eqb (f_enabled l) en &&
                   eqb_option eqb_bytes (fget i (r_files st)) file &&
                   Bool.eqb (negb (eqb_option N.eqb (file_gen i (r_files st)) (file_gen i (r_files st0)))) rw
@@ -73,7 +77,9 @@ Definition list_agrees (st0 st : rstate) (o : lobs) : bool :=
   end.
 
 Definition step_obs (s : rstep) : list lobs * list N :=
-  match s with RStep _ _ _ _ _ ol ov => (ol, ov) | RSet _ _ _ _ _ _ _ ol ov => (ol, ov) end.
+  match s with
+  | RStep _ _ _ _ _ ol ov => (ol, ov) | RSet _ _ _ _ _ _ _ _ ol ov => (ol, ov) | RRebuild ol ov => (ol, ov)
+  end.
 
 Definition step_agrees (probes : list bytes) (s : rstep) (st0 st : rstate) : bool :=
   let '(ol, ov) := step_obs s in
@@ -107,7 +113,7 @@ Fixpoint explain_steps (probes : list bytes) (ss : list rstep) (st : rstate) :=
   | s :: r =>
       let '(ok, st') := run_step s st in
       (ok,
-       map (fun l => (f_id l, f_enabled l, f_name l, f_count l, f_sum l, fgen (f_id l) (r_files st'),
+       map (fun l => (f_id l, f_url l, f_enabled l, f_name l, f_count l, f_sum l, fgen (f_id l) (r_files st'),
                       fget (f_id l) (r_files st'))) (r_block st' ++ r_allow st'),
        map (verdict (r_engine st')) probes) :: explain_steps probes r st'
   end.
